@@ -43,9 +43,9 @@ def gen_family(seed, fam):
         # theme: a module that needs far more stack than the default limit gives (RecursionError on the pinned tree)
         chosen.append('api/a59_deep_chain.py')
     state_pair = None
-    if pair is None and variant_pair is None and r.random() < 0.08:
+    if pair is None and variant_pair is None and r.random() < 0.14:
         state_pair = r.choice(corpus.STATE_PAIRS)
-        for n in state_pair:
+        for n in state_pair[:2]:
             if n not in chosen:
                 chosen.append(n)
     nsrc = r.randrange(1, 5)
@@ -155,8 +155,10 @@ def gen_family(seed, fam):
     if state_pair is None and variant_pair is not None:
         state_pair = variant_pair          # same treatment: first module, then its variant, same options
     if state_pair is not None:
+        extra = state_pair[2] if len(state_pair) > 2 else {}
         for k, srcname in ((0, state_pair[0]), (1, state_pair[1])):
             templates[k] = {'api': 'minify', 'src': chosen.index(srcname), 'kw': {}, 'ra': 'omit'}     # default options on both
+            templates[k].update(extra)
         feeder, consumer = 0, 1
     if pair is not None:
         # feeder and consumer both go through the shared list with rename_globals on
@@ -230,6 +232,29 @@ def gen_api_spec(seed, index, nhs, tier):
         for t in range(nthreads):
             if not any(c['th'] == t for c in calls):
                 calls[r.randrange(len(calls))]['th'] = t
+    elif r.random() < 0.35:
+        # the caller edits its own lists / option objects between calls (and often repeats the previous call)
+        for ci in range(1, len(calls)):
+            if r.random() < 0.4:
+                prev = calls[ci - 1]
+                if r.random() < 0.6:
+                    keep_th = calls[ci]['th']
+                    calls[ci] = dict(prev)
+                    calls[ci].pop('mut', None)
+                    if 'kw' in calls[ci]:
+                        calls[ci]['kw'] = dict(calls[ci]['kw'])
+                    calls[ci]['th'] = keep_th
+                c = calls[ci]
+                muts = []
+                slots = [c.get(k) for k in ('pl', 'pg') if c.get(k) is not None and isinstance(lists[c[k]], list)]
+                if slots and r.random() < 0.7:
+                    sl = r.choice(slots)
+                    op = r.choice(['append', 'append', 'pop', 'clear'])
+                    muts.append({'l': sl, 'op': op, 'v': r.choice(corpus.NAME_POOL)})
+                if isinstance(c.get('ra'), dict) and r.random() < 0.7:
+                    muts.append({'o': c['ra']['slot'], 'f': r.randrange(4), 'v': r.random() < 0.5})
+                if muts:
+                    c['mut'] = muts
 
     spec = {
         'kind': 'api',
@@ -279,8 +304,29 @@ def gen_api_spec(seed, index, nhs, tier):
     return spec, hs, ref_hs, meta
 
 
+def values_at(spec, idx):
+    """Caller's values of its lists / option objects at the time of call idx (its own edits folded in)."""
+    lists = [(list(v) if isinstance(v, list) else v) for v in spec['pool']['lists']]
+    opts = [list(o) for o in spec['pool']['opts']]
+    for c in spec['calls'][:idx + 1]:
+        for m in c.get('mut') or []:
+            if 'l' in m and isinstance(lists[m['l']], list):
+                if m['op'] == 'append':
+                    lists[m['l']].append(m['v'])
+                elif m['op'] == 'pop' and lists[m['l']]:
+                    lists[m['l']].pop()
+                elif m['op'] == 'clear':
+                    del lists[m['l']][:]
+            elif 'o' in m:
+                opts[m['o']][m['f']] = m['v']
+    return lists, opts
+
+
 def ref_call_for(spec, idx):
     c = spec['calls'][idx]
+    if any(x.get('mut') for x in spec['calls']):
+        lists_now, opts_now = values_at(spec, idx)
+        spec = dict(spec, pool={'lists': lists_now, 'opts': opts_now})
     rc = {'api': c['api'], 'source': spec['sources'][c['src']]}
     if c['api'] == 'awslambda':
         if 'entry' in c:
